@@ -8,7 +8,7 @@ Built with `ast` only.  A *site* is
     return a set (or a tuple with a set component, through unpacking), a set operator (`| & - ^`,
     `.union` …) on one of those or on dict `.keys()`/`.items()` views;
   * an order-consuming call on such an expression (`list`, `tuple`, `str.join`, `enumerate`, `next(iter())`,
-    `.pop()`, `str()/repr()`/f-string interpolation), or an order-free one (`sorted`, `len`, `any`, `all`, `sum`,
+    `.pop()`, `str()/repr()`/f-string interpolation, `max`/`min` WITH a key function - ties go to the first element), or an order-free one (`sorted`, `len`, `any`, `all`, `sum`,
     `min`, `max`, `bool`, `in`) — the latter are not listed individually, only counted;
   * `id(...)` interpolated into a string (f-string, `str(id(..))`, `%`/`.format`);
   * a wall-clock / pid / uuid / random / hash() call (kind `clock`): never classified automatically.
@@ -433,7 +433,10 @@ class Scanner(ast.NodeVisitor):
         if isinstance(f, ast.Name) and node.args and self.shape(node.args[0]) in ("S", "F", "O"):
             parent = self.parents.get(node)
             wrapped_in_iter = isinstance(parent, (ast.For, ast.comprehension)) and getattr(parent, "iter", None) is node
-            if f.id in ORDER_FREE_CALLS:
+            if f.id in ("max", "min") and any(k.arg == "key" for k in node.keywords):
+                # with a key function ties are broken by iteration order: an order-sensitive consumer, never auto-classified
+                self.add(node, f"call:{f.id}", node.args[0])
+            elif f.id in ORDER_FREE_CALLS:
                 self.counted_free += 1
                 if f.id == "sorted" and not wrapped_in_iter:
                     self.add(node, "call:sorted", node.args[0], "sorted_wrapped", "sorted(<set>)")
